@@ -15,4 +15,5 @@ CONSTANTS
   Dev_RemovedForStaged = FALSE
   Dev_EnableErrorIgnored = TRUE
 INVARIANTS LiveVisible
+VIEW MCView
 CHECK_DEADLOCK FALSE
